@@ -9,6 +9,8 @@ pub fn arc_accept(x: f64, from: f64, to: f64, margin: f64) -> Option<bool> {
     if from == to { return Some(true); }
     let w = if from < to { to - from } else { (to - from).rem_euclid(TWO_PI) };
     if w >= TWO_PI - margin { return if w >= TWO_PI + margin { Some(true) } else { None }; }
+    // limits a whole number of turns apart up to rounding: zero width and full turn cannot be told apart
+    if w < margin { return None; }
     let d = (x - from).rem_euclid(TWO_PI);   // position on the circle measured from `from`
     if (d - w).abs() < margin || d < margin || (TWO_PI - d) < margin { return None; }
     Some(d <= w)
